@@ -22,7 +22,8 @@ type OutFrame struct {
 // MemSock is an in-memory knxnet.Socket with the shape of the real ones: Send packs the service and
 // "transmits" it (appends it to a log and calls the OnSend hook), inbound frames are handed over by
 // one pump goroutine performing blocking sends on the unbuffered Inbound() channel (kernel queue +
-// blocking hand-off, as serveUDPSocket does), Close stops the pump, which closes Inbound().
+// blocking hand-off, as serveUDPSocket does), Close makes the pump's next "read" fail, upon which it
+// closes Inbound() - but, as with the real receivers, not while it is blocked handing a frame over.
 //
 // It must be created inside the synctest bubble when virtual time is used.
 type MemSock struct {
@@ -81,13 +82,11 @@ func (s *MemSock) pump() {
 				return
 			}
 		}
-		select {
-		case s.inbound <- next:
-			if s.OnDelivered != nil {
-				s.OnDelivered(next)
-			}
-		case <-s.closed:
-			return
+		// Like the real receivers: once a frame has been read it is handed over with a plain blocking
+		// send. Closing the socket does not release a receiver that is blocked here - only a reader does.
+		s.inbound <- next
+		if s.OnDelivered != nil {
+			s.OnDelivered(next)
 		}
 	}
 }
